@@ -15,8 +15,8 @@ trap 'cd $R && git checkout -- . ' EXIT INT TERM
 T=$(SVGPATHTOOLS_VERIF= /venv/bin/python -m pytest -q -p no:cacheprovider --timeout=900 2>&1 | tail -1)
 echo "TESTS: $T"
 # the demo was written against a scratch worktree: point it at /repo
-sed "s#sys.path.insert(0, *['\"][^'\"]*['\"])#sys.path.insert(0, '$R')#" "$DEMO" > /tmp/_seeded_demo.py
-( cd /tmp && PYTHONPATH=$(dirname "$DEMO") timeout 600 /venv/bin/python /tmp/_seeded_demo.py >/dev/null 2>&1 ); echo "DEMO with change: exit=$?"
+sed "s#sys.path.insert(0, *['\"][^'\"]*['\"])#sys.path.insert(0, '$R')#" "$DEMO" > /tmp/_seeded_demo_$$.py
+( cd /tmp && PYTHONPATH=$(dirname "$DEMO") timeout 600 /venv/bin/python /tmp/_seeded_demo_$$.py >/dev/null 2>&1 ); echo "DEMO with change: exit=$?"
 cd /verif
 for c in $CHECKS; do
   out=$(VERIF_REPO=$R timeout 3000 ./check $c --tier $TIER 2>&1); r=$?
@@ -24,5 +24,5 @@ for c in $CHECKS; do
   rm -rf /verif/replays/$c
 done
 cd $R && git checkout -- . && trap - EXIT
-( cd /tmp && PYTHONPATH=$(dirname "$DEMO") timeout 600 /venv/bin/python /tmp/_seeded_demo.py >/dev/null 2>&1 ); echo "DEMO without change: exit=$?"
-rm -f /tmp/_seeded_demo.py
+( cd /tmp && PYTHONPATH=$(dirname "$DEMO") timeout 600 /venv/bin/python /tmp/_seeded_demo_$$.py >/dev/null 2>&1 ); echo "DEMO without change: exit=$?"
+rm -f /tmp/_seeded_demo_$$.py
